@@ -30,6 +30,10 @@ func main() {
 		runHunt(o)
 	case o.Replay != "":
 		runReplay(o)
+	case o.Extra == "anchors-only":
+		// evaluate the Go functions at the anchors and nothing else (branch-coverage measurement)
+		as := buildAnchors(o)
+		fmt.Println(len(as), "anchors evaluated")
 	default:
 		if strings.HasPrefix(o.Extra, "corpus=") {
 			runCorpus(o, strings.TrimPrefix(o.Extra, "corpus="))
